@@ -449,7 +449,8 @@ void GridWavelet::recomputeCoefficients(){
     int num_points = points.getNumIndexes();
     coefficients = Data2D<double>(num_outputs, num_points, std::vector<double>(values.begin(), values.end()));
 
-    if (inter_matrix.getNumRows() != num_points) buildInterpolationMatrix();
+    // always rebuild: a matrix cached by the weight queries may belong to a different point set of the same size
+    buildInterpolationMatrix();
 
     inter_matrix.invert(acceleration, num_outputs, coefficients.data());
 
